@@ -436,6 +436,7 @@ func (m *Monitor) Reassemble(src, dst string) (stream []byte, consistent bool) {
 // ---------------------------------------------------------------------------
 
 type World struct {
+	Owned bool
 	Env  *vh.Env
 	Mon  *Monitor
 	Tr   *vh.Trace
@@ -472,12 +473,14 @@ func (w *World) FlushWire() {
 }
 
 // Dial creates a client session on a fresh simnet endpoint.
+// Owned: the sessions / listeners created from now on own their transports, as the ones made by DialWithOptions / ListenWithOptions
+// do (Close of the dialled session / of the listener then closes the transport as well).
 func (w *World) Dial(local, remote string, conv uint32, cfg SessCfg) (*kcp.UDPSession, *simnet.Conn) {
 	c, err := w.Env.Hub.Listen(local)
 	vh.Must(err)
 	ra, _ := net.ResolveUDPAddr("udp", remote)
 	block, _ := Crypt(cfg.Cipher)
-	s, err := kcp.NewConn3(conv, ra, block, cfg.D, cfg.P, c)
+	s, err := kcp.NewConn4(conv, ra, block, cfg.D, cfg.P, w.Owned, c)
 	vh.Must(err)
 	cfg.Apply(s)
 	w.Mon.Register(local, remote, conv, cfg, 0)
@@ -489,7 +492,12 @@ func (w *World) Listen(addr string, cfg SessCfg) (*kcp.Listener, *simnet.Conn) {
 	c, err := w.Env.Hub.Listen(addr)
 	vh.Must(err)
 	block, _ := Crypt(cfg.Cipher)
-	l, err := kcp.ServeConn(block, cfg.D, cfg.P, c)
+	var l *kcp.Listener
+	if w.Owned {
+		l, err = kcp.VerifServeConnOwned(block, cfg.D, cfg.P, c)
+	} else {
+		l, err = kcp.ServeConn(block, cfg.D, cfg.P, c)
+	}
 	vh.Must(err)
 	return l, c
 }
